@@ -250,11 +250,12 @@ func inMapEntry(w wWorld, rf ref) bool {
 	}
 	ms := w.Files[rf.File].Msgs
 	p := rf.Path
-	for len(p) >= 2 && (p[0] == 4 || p[0] == 3) && p[1] < len(ms) {
+	want := 4 // message_type in a file, then nested_type (3) in a message
+	for len(p) >= 2 && p[0] == want && p[1] < len(ms) {
 		if ms[p[1]].Head.MapEntry {
 			return true
 		}
-		ms, p = ms[p[1]].Nested, p[2:]
+		ms, p, want = ms[p[1]].Nested, p[2:], 3
 	}
 	return false
 }
